@@ -467,10 +467,10 @@ def twin_of(rng, prog, algebras, pools):
 def gen_trace(rng, tier='quick', crit_names=(), arm=None):
     """A complete C09 run description (see DESIGN.md 8.1)."""
     u = rng.random()
-    dims = [1, 2, 3, 4]
-    wts = [0.05, 0.40, 0.40, 0.15]
+    dims = [1, 2, 3, 4, 7]
+    wts = [0.05, 0.39, 0.39, 0.15, 0.02]       # 7-D: sign table and basis blades are filled lazily
     if tier == 'thorough':
-        dims += [5, 7]
+        dims = [1, 2, 3, 4, 5, 7]
         wts = [0.04, 0.36, 0.38, 0.17, 0.02, 0.03]
     d = rng.choices(dims, weights=wts)[0]
     n_alg = rng.choices([1, 2, 3], weights=[0.55, 0.38, 0.07])[0]
